@@ -1,11 +1,28 @@
 package prometheus
 
+// Shared fakes and helpers of the prometheus harnesses (no references to collector internals
+// other than the stubbable clock `now`).
 import (
+	"errors"
 	"net"
+	"net/netip"
+	"sync"
 	"time"
 
+	"github.com/Jigsaw-Code/outline-ss-server/ipinfo"
+	"github.com/Jigsaw-Code/outline-ss-server/service/metrics"
 	"github.com/prometheus/client_golang/prometheus"
 )
+
+// keep the imports used whatever this file ends up holding
+var _ = errors.New
+var _ net.IP
+var _ netip.Addr
+var _ sync.Mutex
+var _ time.Duration
+var _ ipinfo.IPInfo
+var _ metrics.ProxyMetrics
+var _ prometheus.Metric
 
 type prometheus_Metric = prometheus.Metric
 
@@ -13,11 +30,131 @@ type verifConn struct {
 	remote, local net.Addr
 }
 
-func (c *verifConn) Read(b []byte) (int, error)         { return 0, nil }
-func (c *verifConn) Write(b []byte) (int, error)        { return len(b), nil }
-func (c *verifConn) Close() error                       { return nil }
-func (c *verifConn) LocalAddr() net.Addr                { return c.local }
-func (c *verifConn) RemoteAddr() net.Addr               { return c.remote }
-func (c *verifConn) SetDeadline(t time.Time) error      { return nil }
-func (c *verifConn) SetReadDeadline(t time.Time) error  { return nil }
+func (c *verifConn) Read(b []byte) (int, error) { return 0, nil }
+
+func (c *verifConn) Write(b []byte) (int, error) { return len(b), nil }
+
+func (c *verifConn) Close() error { return nil }
+
+func (c *verifConn) LocalAddr() net.Addr { return c.local }
+
+func (c *verifConn) RemoteAddr() net.Addr { return c.remote }
+
+func (c *verifConn) SetDeadline(t time.Time) error { return nil }
+
+func (c *verifConn) SetReadDeadline(t time.Time) error { return nil }
+
 func (c *verifConn) SetWriteDeadline(t time.Time) error { return nil }
+
+var verifClockNs int64
+
+func verifInstallClock(start int64) {
+	verifClockNs = start
+	now = func() time.Time { return verifTime(verifClockNs) }
+}
+
+func verifAdvance() int64 {
+	dt := verifI64("dt")
+	verifAssume(dt >= 0 && dt <= 1<<40)
+	verifClockNs += dt
+	return dt
+}
+
+// a location database that fails for some lookups (each lookup fails or not, arbitrarily)
+type verifFlakyDB struct{ lookups int }
+
+func (d *verifFlakyDB) GetIPInfo(ip net.IP) (ipinfo.IPInfo, error) {
+	d.lookups++
+	if verifFlag("lookup-fails") {
+		return ipinfo.IPInfo{}, errVerifDB
+	}
+	return ipinfo.IPInfo{CountryCode: "AA", ASN: ipinfo.ASN{Number: 64500, Organization: "Org"}}, nil
+}
+
+var errVerifDB = errors.New("db failure")
+
+// a location database whose lookups take a moment (as an mmdb lookup does)
+type verifSlowDB struct{}
+
+func (verifSlowDB) GetIPInfo(ip net.IP) (ipinfo.IPInfo, error) {
+	if verifNative() {
+		time.Sleep(30 * time.Microsecond)
+	}
+	return ipinfo.IPInfo{CountryCode: "CA", ASN: ipinfo.ASN{Number: 64500, Organization: "Org"}}, nil
+}
+
+func verifPar(fs ...func()) {
+	var wg sync.WaitGroup
+	for _, f := range fs {
+		wg.Add(1)
+		f := f
+		go func() {
+			defer wg.Done()
+			f()
+		}()
+	}
+	wg.Wait()
+}
+
+type verifInfoDB struct {
+	info ipinfo.IPInfo
+	fail bool
+}
+
+func (d *verifInfoDB) GetIPInfo(ip net.IP) (ipinfo.IPInfo, error) {
+	if d.fail {
+		return d.info, errors.New("db failure")
+	}
+	return d.info, nil
+}
+
+var verifAllowedLabelNames = map[string]bool{"access_key": true, "location": true, "asn": true, "asorg": true,
+	"status": true, "dir": true, "proto": true, "port": true, "error": true, "found_key": true, "version": true}
+
+func verifClientTCPAddr() *net.TCPAddr {
+	port := 1024 + int(verifU16("cport"))%60000
+	if verifFlag("ipv6-client") {
+		low := verifBytes("cip6", 4)
+		return &net.TCPAddr{IP: net.IP{0x20, 0x01, 0x0d, 0xb8, 0x85, 0xa3, 0, 0, 0, 0, 0x8a, 0x2e, low[0], low[1], low[2], low[3]}, Port: port}
+	}
+	ip := verifBytes("cip", 4)
+	verifAssume(ip[0] == 203 || ip[0] == 198) // some public client
+	return &net.TCPAddr{IP: net.IP(ip), Port: port}
+}
+
+type verifHookDB struct {
+	info ipinfo.IPInfo
+	hook func()
+}
+
+func (d *verifHookDB) GetIPInfo(ip net.IP) (ipinfo.IPInfo, error) {
+	if d.hook != nil {
+		d.hook()
+	}
+	return d.info, nil
+}
+
+// a database that answers per address (by the parity of its last byte, with one address it
+// fails on and one it has no country for)
+type verifPerAddrDB struct{ calls int }
+
+func verifWantInfo(last byte) (ipinfo.IPInfo, bool) {
+	switch {
+	case last == 9:
+		return ipinfo.IPInfo{}, false
+	case last == 8:
+		return ipinfo.IPInfo{ASN: ipinfo.ASN{Number: 64508, Organization: "Org-8"}}, true
+	case last%2 == 0:
+		return ipinfo.IPInfo{CountryCode: "AA", ASN: ipinfo.ASN{Number: 64500, Organization: "Org-even"}}, true
+	}
+	return ipinfo.IPInfo{CountryCode: "BB", ASN: ipinfo.ASN{Number: 64501, Organization: "Org-odd"}}, true
+}
+
+func (d *verifPerAddrDB) GetIPInfo(ip net.IP) (ipinfo.IPInfo, error) {
+	d.calls++
+	info, ok := verifWantInfo(ip[len(ip)-1])
+	if !ok {
+		return info, errors.New("db failure")
+	}
+	return info, nil
+}
